@@ -1,13 +1,17 @@
 (* Theorems about the codec model (Codec/Proto.v): round trips, non-empty encodings, well-formed decoded
-   values, Size = encoded length, no panic on any input, field order against the generated ProtoTags table.
+   values.  Companion files: SizeProofs.v (Size = encoded length), NoPanicProofs.v (no panic on any input),
+   FormatProofs.v (field order and tags against the generated ProtoTags table), CanonProofs.v (injectivity,
+   necessity of [fits]), CodecOk.v (the abstract codec_ok of the ledger proofs, ideal decoder).
 
    IMPORTANT (statement shape).  The decoder model is exact, including Go's 64-bit `int`: a length
    varint >= 2^63 is ErrInvalidLength and varints have at most 10 bytes.  A Coq [list byte] can be longer
    than any Go slice, so the round-trip statements WITHOUT a size hypothesis are false for the exact
-   decoder (take Properties := 2^63 zero bytes: its length prefix decodes to a negative int).  The
+   decoder (take a role of 2^63 zero bytes: its length prefix decodes to a negative int).  The
    round-trip theorems therefore carry the hypothesis [fits (enc_* x)]: the encoding is a byte string that
    can exist in a Go program (length < 2^63).  They are named `..._partial`; the unconditional statements
-   are kept as comments next to them.  `roles_roundtrip_needs_fits` proves that the hypothesis is necessary. *)
+   are kept as comments next to them.  CanonProofs.roles_roundtrip_needs_fits proves that the hypothesis is
+   necessary; CodecOk.ideal_codec_ok gives the unconditional statements for a decoder that equals the exact
+   one on every byte string that fits. *)
 From EV Require Import Base.Bytes Base.Monad Codec.Types Codec.Varint Codec.BigIntCaster Codec.Proto
   Codec.VarintProofs Codec.CasterProofs Codec.LoopProofs.
 Local Open Scope N_scope.
